@@ -146,7 +146,11 @@ pub trait Prop: Sync + Send {
     fn extra_cases(&self, _tier: Tier, _seed: u64) -> Vec<Value> {
         vec![]
     }
-    /// Hash of a case for the distinct count when the worker did not supply keys.
+    /// Signature given to a hang ("hang") or a dead worker ("crash") on this case. Properties
+    /// override it to tell apart a listed known finding (exact probe) from anything else.
+    fn abnormal_signature(&self, _case: &Value, kind: &str) -> String {
+        format!("{kind}:{}", self.id())
+    }
     fn max_shrink_iters(&self) -> u32 {
         600
     }
